@@ -41,6 +41,13 @@ def _replay_one(case):
     for i in range(max(len(got), len(exp))):
         a = got[i] if i < len(got) else None
         b = exp[i] if i < len(exp) else None
+        # numeric observations of the monitor (anchored: grown from the neighbour's CURRENT position) are not part of the exported
+        # abstract event; they must all hold
+        if a is not None and not all(a.get("obs", {}).values()):
+            return ("diff", "event %d: %s - monitor %s, raw %s" % (i + 1, json.dumps({k: v for k, v in a.items() if k in ("ev", "mol", "prev", "cur")}),
+                                                                   json.dumps(a.get("obs")), json.dumps(a.get("raw"))), {"observed": got[:i + 1], "at": i})
+        if a is not None:
+            a = {k: v for k, v in a.items() if k not in ("obs", "raw")}
         if a != b:
             return ("diff", "event %d: observed %s, specification %s%s" % (i + 1, json.dumps(a), json.dumps(b), ("; run ended with " + err) if err else ""),
                     {"observed": got[:i + 1], "at": i})
@@ -150,6 +157,59 @@ def _natural_trace(arg):
                 except Exception as exc:
                     return {"inst": rec.header, "evs": rec.events, "error_in_code": "%s: %s" % (type(exc).__name__, exc)}
             return {"inst": rec.header, "evs": rec.events, "error_in_code": None}
+    except _Timeout:
+        return {"noverdict": "timeout"}
+    finally:
+        signal.setitimer(signal.ITIMER_REAL, 0)
+
+
+def _threshold_trace(arg):
+    """a build around the engine's 5000-point tree threshold: 4978 supplied single-residue molecules + 20 built ones bring the newest search
+    tree to 4998 points, then six 4-residue chains are built under forced failures (rewinds and abandoned attempts whose residues may sit on
+    both sides of a tree boundary).  Every roll-back must leave all four views of the engine consistent (monitor `views`)."""
+    sd, nw = arg
+    from pathlib import Path
+    from polyply import gen_coords
+    import tempfile
+    from . import c05
+    np.random.seed(sd)
+    random.seed(sd)
+    rng = random.Random(sd)
+    budget = {"n": 14}
+
+    def chooser(kinds):
+        if kinds[0] == "ok" and budget["n"] > 0 and rng.random() < 0.35:
+            budget["n"] -= 1
+            return kinds[1]
+        return None if kinds[0] == "root" else kinds[0]
+    signal.signal(signal.SIGALRM, _alarm)
+    signal.setitimer(signal.ITIMER_REAL, 900, 5)
+    try:
+        with tempfile.TemporaryDirectory(prefix="verif_c17t_", dir="/var/tmp") as wd:
+            wd = Path(wd)
+            c05.slab_files(wd, sd, nw=nw)
+            # chains of 8 residues instead of 4: the newest tree passes 5000 points in the middle of the first chain and failures after that
+            # point roll residues back on both sides of the boundary
+            top = (wd / "slab.top").read_text()
+            head, tail = top.split("[ moleculetype ]\nC4 1", 1) if "[ moleculetype ]\nC4 1" in top else (None, None)
+            if head is None:
+                import re as _re
+                m = _re.search(r"\[ moleculetype \]\s*\n\s*C4\s+1", top)
+                head, tail = top[:m.start()], top[m.end():]
+            sysm = tail[tail.index("[ system ]"):]
+            c8 = "[ moleculetype ]\nC4 1\n[ atoms ]\n" + "".join("%d P %d CA CA %d 0.0 72\n" % (i, i, i) for i in range(1, 9)) \
+                 + "[ bonds ]\n" + "".join("%d %d 1 0.47 100\n" % (i, i + 1) for i in range(1, 8))
+            (wd / "slab.top").write_text(head + c8 + sysm)
+            with w.recording(chooser=chooser) as rec:
+                try:
+                    gen_coords(toppath=wd / "slab.top", outpath=wd / "o.gro", name="t", coordpath=wd / "slab.gro", grid=str(wd / "grid.dat"),
+                               max_force=1e12, nrewind=3, step_fudge=1.0)
+                except _Timeout:
+                    return {"noverdict": "timeout"}
+                except Exception as exc:
+                    return {"inst": rec.header, "evs": rec.events, "error_in_code": "%s: %s" % (type(exc).__name__, exc)}
+            inst, evs = w.compact_trace(rec.header, rec.events)
+            return {"inst": inst, "evs": evs, "error_in_code": None}
     except _Timeout:
         return {"noverdict": "timeout"}
     finally:
@@ -270,6 +330,13 @@ def run(tier, prop="C17"):
         validate(ck, ntr, "natural")
     for must in ("trace:rewind", "trace:cleanup", "trace:fail", "trace:rootfail"):
         ck.require(ck.actions.get(must), "the recorded traces contain no %s event (vacuous)" % must)
+    ck.stage("I->S: builds around the 5000-point tree threshold of the engine")
+    before = ck.actions.get("trace:rewind", 0)
+    thr = [(sd * 100 + 70 + k, nw) for k, nw in enumerate([4978, 4977] if tier == "quick" else [4978, 4977, 4979, 4976, 4978, 5001])]
+    ttr = collect(ck, c.pmap(_threshold_trace, thr), "tree threshold")
+    if ck.require(bool(ttr), "no threshold run finished within its time limit"):
+        validate(ck, ttr, "threshold")
+        ck.require(ck.actions.get("trace:rewind", 0) > before, "the threshold runs contain no rewind (vacuous)")
     ck.stage("binding demonstration")
     if not traces:
         ck.require(False, "no random-schedule trace available for the binding demonstration")
